@@ -38,7 +38,7 @@ def make_module(code: str, name: Optional[str] = None, extra: Optional[dict] = N
     mod.__dict__["__file__"] = name + ".py"
     if extra:
         mod.__dict__.update(extra)
-    exec(compile(code, name + ".py", "exec"), mod.__dict__)
+    exec(compile(code, name + ".py", "exec", dont_inherit=True), mod.__dict__)
     return mod
 
 
